@@ -16,11 +16,17 @@ package byteslice
 //@ pred classes(p *Pool) := forall k :: 0 <= k && k < 32 ==> poolext[elemref(p.pools, k)] == pow2(k) && !poolring[elemref(p.pools, k)]
 //@ axiom classes(builtinPool)
 
+// released[a]: the array a has been handed back to the pool (Put) and not taken out again (Get): whoever still holds a
+// slice or string over it must not rely on it. A bookkeeping ghost (writing it is never a frame violation).
+//@ ghost log released map[Ref]bool
+//
 // Get: exactly the requested length, capacity at least that large, the unsafe.Slice stays inside
 // the stored array. That the memory is not shared with any slice currently handed out is
 // sync.Pool's contract plus the Put discipline of the clients; callers rely on it as an assumed clause.
 //@ func (p *Pool) Get(size int) []byte
 //@   requires p != nil && classes(p)
+//@   modifies released
+//@   ghostdef released[arr(res)] := false
 //@   ensures size <= 0 ==> res == nil
 //@   ensures size > 0 ==> len(res) == size && cap(res) >= size
 //@   assumes fresh(res)
@@ -28,10 +34,16 @@ package byteslice
 // Put: the class chosen never exceeds the capacity of the slice, for every capacity and sub-slice.
 //@ func (p *Pool) Put(buf []byte)
 //@   requires p != nil && classes(p)
+//@   modifies released[arr(buf)]
+//@   ghostdef released[arr(buf)] := true
 //
 //@ func Get(size int) []byte
+//@   modifies released
+//@   ghostdef released[arr(res)] := false
 //@   ensures size <= 0 ==> res == nil
 //@   ensures size > 0 ==> len(res) == size && cap(res) >= size
 //@   assumes fresh(res)
 //
 //@ func Put(buf []byte)
+//@   modifies released[arr(buf)]
+//@   ghostdef released[arr(buf)] := true
